@@ -2,7 +2,7 @@
   Server-side subscription bookkeeping (C04, C06) — a transcription of the atomic steps of
 
     core/src/server/subscription.rs   PendingSubscriptionSink::{accept,reject}, Drop; SubscriptionSink::{send,
-                                      is_closed,clone}, `impl Drop for SubscriptionSink`; BoundedSubscriptions
+                                      is_closed,clone}, `impl Drop for SubscriptionGuard`; BoundedSubscriptions
     core/src/server/rpc_module.rs     register_subscription: subscribe callback (781-877: handler task joined with
                                       the `accepted` signal, close notification), unsubscribe callback (980-1034)
     core/src/server/helpers.rs        MethodSink = bounded mpsc sender (the per-connection queue)
@@ -55,6 +55,7 @@ structure Sub where
   inTable : Bool := false    -- entry under (conn, subId) in the method's `Subscribers`
   unsubscribed : Bool := false  -- ghost: the entry was removed by an unsubscribe call
   orphaned : Bool := false      -- ghost: the entry was removed by the drop of a clone that was not the last one
+                                --        (never set with the current drop rule: `noOrphan_of_fixed`)
   handlerDone : Bool := false   -- the handler future has returned
   ret : Ret := .none
   taskDone : Bool := false      -- the task spawned by the subscribe callback has finished
@@ -107,10 +108,11 @@ inductive Out where
 def tooManyCode : Int := -32006
 def internalCode : Int := -32603
 
-/-- THE switch for finding F-13 (`impl Drop for SubscriptionSink`, subscription.rs:414-420): does
-dropping one of `clones` live handles remove the table entry?  Current code: always (no
-last-clone check).  Fixed code: only the last one (`clones == 1`). -/
-def dropSinkRemovesEntry (_clones : Nat) : Bool := true
+/-- The drop rule of the sink handles (`SubscriptionGuard`, subscription.rs: shared by all clones of a
+`SubscriptionSink` in an `Arc`): does dropping one of `clones` live handles remove the table entry?
+Only the last one does.  (Before fix 2bde692 — finding F-13 — `impl Drop for SubscriptionSink` had no
+last-clone check, i.e. this was `true` for every count; that history is kept in corpus/C06/.) -/
+def dropSinkRemovesEntry (clones : Nat) : Bool := clones == 1
 
 def Conn.hasRoom (cn : Conn) : Bool := cn.queue.length < cn.qcap
 def Conn.push (cn : Conn) (f : Frame) : Conn := { cn with queue := cn.queue ++ [f] }
